@@ -9,9 +9,8 @@ import Vita.C03.Lemmas
 namespace Vita.C03.PackSyn
 open Vita.C03
 
-theorem leBytes2_eq_opBytes (op : Nat) : leBytes (op % 2 ^ 16) 2 = opBytes op := by
-  simp only [leBytes, opBytes, List.cons.injEq, and_true]
-  omega
+theorem leBytes4_eq_opBytes (op : Nat) : leBytes op 4 = opBytes op := by
+  simp only [leBytes, opBytes, Nat.div_div_eq_div_mul]
 
 theorem leBytes8_eq_parBytes (p : Nat) : leBytes p 8 = parBytes p := by
   simp only [leBytes, parBytes, Nat.div_div_eq_div_mul]
@@ -32,12 +31,12 @@ theorem runPackF_asModelled (tab : SymTab) (g : Genome) :
     have ih : runPackF packAsModelled tab g f = packF tab g f := funext (runPackF_asModelled tab g f)
     have h8 : ((leBytes (g.at l).par 8).drop 0).take (8 - 0) = parBytes (g.at l).par := by
       rw [leBytes8_eq_parBytes]; rfl
-    have h2 : ((leBytes ((g.at l).op % 2 ^ 16) 2).drop 0).take (2 - 0) = opBytes (g.at l).op := by
-      rw [leBytes2_eq_opBytes]; rfl
+    have h2 : ((leBytes (g.at l).op 4).drop 0).take (4 - 0) = opBytes (g.at l).op := by
+      rw [leBytes4_eq_opBytes]; rfl
     show exec tab (g.at l) (runPackF packAsModelled tab g f) packAsModelled = _
     rw [ih]
-    simp only [packAsModelled, exec, PVal.eval, Option.map, packF]
-    simp only [h2, h8, show (2 : Nat) ≤ 16 / 8 from by decide, show (8 : Nat) ≤ 8 from Nat.le_refl _, if_true]
+    simp only [packAsModelled, exec, PVal.eval, packF]
+    simp only [h2, h8, show (4 : Nat) ≤ 4 from Nat.le_refl _, show (8 : Nat) ≤ 8 from Nat.le_refl _, if_true]
     by_cases ha : tab.arity (g.at l).op = 0
     · simp only [ha, ne_eq, not_true_eq_false, if_false, if_true]
       cases (tab (g.at l).op).parametric <;> simp
